@@ -186,11 +186,16 @@ bool explainedByMaxExtent(const nix::DataArray &a, const std::vector<ConcreteAxi
     return anyDiff;
 }
 
-json handle(Ctx &c, const json &rec) {
+std::string g_tagUnit = "ms";
+bool g_pairSet = false;
+json handleOne(Ctx &c, const json &rec) {
     RF.fresh(c);
     RF.used++;
-    g_dimUnit = c.opts.value("dim_unit", "");
-    g_S = c.opts.value("scale", 1.0); g_f = c.opts.value("factor", 1.0);
+    if (!g_pairSet) {
+        g_dimUnit = c.opts.value("dim_unit", "");
+        g_tagUnit = g_tagUnit;
+        g_S = c.opts.value("scale", 1.0); g_f = c.opts.value("factor", 1.0);
+    }
     const json &cs = rec["c"];
     const json &res = rec["res"];
     std::string t = cs["t"], mode = cs["m"], ext = cs["ext"], lt = cs["lt"];
@@ -260,13 +265,13 @@ json handle(Ctx &c, const json &rec) {
                     std::vector<double> st(pos), en(L);
                     for (size_t j = 0; j < L; j++) en[j] = pos[j] + exts[j];
                     std::vector<std::string> us;
-                    if (!g_dimUnit.empty()) for (size_t j = 0; j < L && j < R; j++) us.push_back(unitFor(axes[j], c.opts.value("tag_unit", "ms")));
+                    if (!g_dimUnit.empty()) for (size_t j = 0; j < L && j < R; j++) us.push_back(unitFor(axes[j], g_tagUnit));
                     check("dataSlice", [&] { return nix::util::dataSlice(a, st, en, us, rm(mode)); }, false, rm(mode));
                     continue;
                 }
                 nix::Tag tag = b.createTag("tag", "t", pos);
                 if (!absent) tag.extent(exts);
-                if (!g_dimUnit.empty() && L > 0) { std::vector<std::string> us; for (size_t j = 0; j < L; j++) us.push_back(j < R ? unitFor(axes[j], c.opts.value("tag_unit", "ms")) : "none"); tag.units(us); }
+                if (!g_dimUnit.empty() && L > 0) { std::vector<std::string> us; for (size_t j = 0; j < L; j++) us.push_back(j < R ? unitFor(axes[j], g_tagUnit) : "none"); tag.units(us); }
                 nix::RangeMatch effective = (absent || L == 0) ? nix::RangeMatch::Inclusive : rm(mode);   // no extent vector: the library matches inclusively
                 if (t == "tag") {
                     tag.addReference(a);
@@ -315,7 +320,7 @@ json handle(Ctx &c, const json &rec) {
             nix::DataArray pa = b.createDataArray("positions", "t", nix::DataType::Double, psh);
             pa.setData(nix::DataType::Double, P.data(), psh, nix::NDSize(psh.size(), 0));
             nix::MultiTag mt = b.createMultiTag("mtag", "t", pa);
-            if (!g_dimUnit.empty()) { std::vector<std::string> us; for (size_t j = 0; j < L && j < R; j++) us.push_back(unitFor(axes[j], c.opts.value("tag_unit", "ms"))); mt.units(us); }
+            if (!g_dimUnit.empty()) { std::vector<std::string> us; for (size_t j = 0; j < L && j < R; j++) us.push_back(unitFor(axes[j], g_tagUnit)); mt.units(us); }
             if (!absent) {
                 nix::DataArray ea = b.createDataArray("extents", "t", nix::DataType::Double, psh);
                 ea.setData(nix::DataType::Double, E.data(), psh, nix::NDSize(psh.size(), 0));
@@ -390,5 +395,21 @@ json handle(Ctx &c, const json &rec) {
     return r;
 }
 
+// with "unit_pairs" = [[dimension unit, request unit, scale, factor], ...] the same case is executed once per pair, one after the
+// other in this process (a conversion must not depend on which conversions were asked for before: pairs come in both directions)
+json handle(Ctx &c, const json &rec) {
+    if (!c.opts.contains("unit_pairs")) { g_pairSet = false; return handleOne(c, rec); }
+    json last; long n = 0;
+    for (const json &p : c.opts["unit_pairs"]) {
+        g_pairSet = true;
+        g_dimUnit = p[0].get<std::string>(); g_tagUnit = p[1].get<std::string>(); g_S = p[2].get<double>(); g_f = p[3].get<double>();
+        last = handleOne(c, rec);
+        n += last.value("n", 1L);
+        if (last.value("v", "") != "ok" && last.value("v", "") != "unjudgeable") { last["unit_pair"] = p; g_pairSet = false; return last; }
+    }
+    g_pairSet = false;
+    last["n"] = n;
+    return last;
+}
 Reg reg("retr", handle);
 }
